@@ -203,7 +203,7 @@ PROPS["C19"] = dict(
     namespace="Cfdp.Loop",
     theorems=["C19_send_quiet", "C19_send_no_timer_fault", "C19_send_permit_ignored", "C19_send_resume",
               "C19_recv_quiet", "C19_recv_no_timer_fault", "C19_recv_suspend", "C19_recv_resume", "C19_send_run_quiet"],
-    engines=["send", "recv"],
+    engines=["send", "recv", "daemon"],
     design="§6 C19",
     technique="Lean 4 proofs over the sender/receiver models and the task-loop step (gating of the send/timeout branches) + differential correspondence",
     level_text=("Kernel-checked over the models of both transactions and of one task-loop iteration: in the Suspended state has_pdu_to_send is false and "
@@ -214,7 +214,7 @@ PROPS["C19"] = dict(
                 "metadata and staging file untouched (C19_*_resume). The gating is exactly what the pinned tree lacked (findings F17, F22). "
                 "Tie to the code: send and recv engines with suspend/resume injected at random points and arbitrary suspension lengths; oracles quiet / fault_while_suspended."),
     level_note=RECV_SEND_NOTE + " The completion-after-resume sentence of the property is C02's liveness and is not a theorem here.",
-    rule=("send + recv engines (see C07/C04): about one history in nine contains suspend, time passing (0 to 30 s), timeouts, send attempts, resume; "
+    rule=("daemon engine (two real daemons): in every third multi-transaction scenario one acknowledged six-segment transfer is suspended through its daemon (UserPrimitive::Suspend) right after its Put and resumed 1.5 s later - oracle daemon_suspended_silent (nothing of that transaction is handed to the link in between) and completion after the Resume (C11 others_unaffected). send + recv engines (see C07/C04): about one history in nine contains suspend, time passing (0 to 30 s), timeouts, send attempts, resume; "
           "fault handlers that suspend (8:s, 1:s, 7:s) make suspension by fault frequent. Non-trivial = a PDU was emitted or an indication raised."),
     assumptions=["the loop consults has_pdu_to_send()/until_timeout() before every iteration (lib.rs select! guards), as modelled in Model/Loop.lean"],
     unproved=["after resume the transfer completes exactly as an unsuspended one (liveness, = C02)"],
@@ -365,7 +365,7 @@ PROPS["C10"] = dict(
     namespace="Cfdp.Loop",
     theorems=["C10_no_partial", "C10_cancel_freezes", "Cfdp.Recv.C10_recv_cancel", "Cfdp.Recv.C10_recv_peer_cancel",
               "Cfdp.Recv.C10_recv_cancel_ends", "Cfdp.Send.C10_send_cancel", "Cfdp.Send.C10_send_cancel_ends"],
-    engines=["recv", "send"],
+    engines=["recv", "send", "daemon"],
     design="§6 C10",
     technique="Lean 4 proofs over the receiver / sender models and the task-loop step (filestore frame + cancel handshake steps) + differential correspondence",
     level_text=("Kernel-checked: for every event a loop iteration can see, the filestore changes only if the receive transaction was still in ReceiveData and - unless the user "
@@ -378,7 +378,7 @@ PROPS["C10"] = dict(
                 "entity id as fault location queued (C10_send_cancel), transmitted when the link is free, and the sender ends by Abandon at the ACK / inactivity limit "
                 "(C10_send_cancel_ends). Bounded time of those ends: C17 + C03. Tie to the code: recv/send engines with cancel injected before/after every PDU."),
     level_note=RECV_SEND_NOTE + " Both-sides-end over a real link (two daemons) is exercised by the daemon engine (C02/C11) when registered; here each side is proved separately.",
-    rule=("recv + send engines as in C04/C07: one history in three contains a user request at a random position (cancel / suspend-resume / EOF(cancel) from the peer / report), "
+    rule=("daemon engine (two real daemons): in every third multi-transaction scenario one acknowledged six-segment transfer is cancelled through its daemon (UserPrimitive::Cancel) right after its Put - oracles daemon_cancel (the sender reports CancelReceived; the receiver reports it too or had completed before), daemon_cancel_no_file, daemon_cancel_ends; the other transactions must be unaffected (C11 others_unaffected). recv + send engines as in C04/C07: one history in three contains a user request at a random position (cancel / suspend-resume / EOF(cancel) from the peer / report), "
           "followed by losses of the handshake PDUs (wind-down rounds without answers) or the ACK at a random round. Oracles no_partial (filestore listing before/after every "
           "step), cancel_closure_finished. Non-trivial = a PDU was emitted or an indication raised."),
     assumptions=["C10_no_partial second part: the handler configured for CheckLimitReached is not Ignore (with Ignore an incomplete unacknowledged transfer is stored on purpose, "
@@ -452,7 +452,7 @@ PROPS["C03"] = dict(
     namespace="Cfdp.Loop",
     theorems=["C03_recv_never_stuck", "C03_send_never_stuck", "Cfdp.Recv.C03_recv_inactivity_limit",
               "C03_send_bounded_work", "C03_send_drains", "C03_send_bounded_time"],
-    engines=["recv", "send", "net"],
+    engines=["recv", "send", "net", "daemon"],
     design="§6 C03",
     technique="Lean 4 invariant proofs over all event histories of the receiver and sender models (a timer is always running or a PDU is queued) + limit-to-termination step theorems; bounded termination of the real state machines checked by a drain phase on the virtual clock",
     level_text=("Kernel-checked. Receiver: after every history of loop events a receive transaction that is neither terminated nor suspended has its inactivity timer "
@@ -475,7 +475,7 @@ PROPS["C03"] = dict(
                 "within 4 x (limit+1) x (sum of timeouts), never an infinite sleep (never_stuck) and never more than 5000 iterations (spinning). This drain found F33 and F34."),
     level_note=RECV_SEND_NOTE + " 'The daemon keeps serving other transactions meanwhile' is C11. Transactions the user suspended, or whose limit faults are configured ignore / "
                "suspend, are exempt as the property says.",
-    rule=("recv + send engines as in C04/C07; one history in three is cut at a random point (blackout of both directions from there on), every history is followed by the drain "
+    rule=("daemon engine: every transaction of every scenario has ended at both daemons by the horizon (oracle daemon_bounded). recv + send engines as in C04/C07; one history in three is cut at a random point (blackout of both directions from there on), every history is followed by the drain "
           "phase. Oracles never_stuck, bounded. Non-trivial = a PDU was emitted or an indication raised."
           " net engine (300 quick / 3000 thorough two-party histories): one real SendTransaction and one real RecvTransaction joined by a simulated link that delivers only PDUs the other side emitted (in order, lost, duplicated, reordered, as stragglers), random schedules of transmissions, deliveries, timer expiries and user requests at both sides, then a loss-free fair phase on the shared virtual clock until both have ended; every call is answered in lockstep by the Lean sender and receiver models (ops net s / net r), the per-side oracles of the send / recv engines keep running, and two-party oracles are added: C02 recovers / same_outcome (acknowledged mode, losses confined to a zero-time phase, default handlers: both sides report success), C03 net_bounded / net_never_stuck, C04 sender_success_only_after_receiver, C01 two_party_file."),
     assumptions=["the runtime wakes the task when the computed sleep is over (tokio timers) and grants the link when asked (bounded channel with a live consumer)"],
